@@ -234,6 +234,9 @@ impl World {
             let mut walkers: Vec<_> = (0..nw).map(|_| chain.walk()).collect();
             let mut cursors = vec![0usize; nw];
             let mut last_dir = vec![0i8; nw];
+            // what each walker has shown so far for each ply (for the round-trip clause of C04)
+            let mut shown: Vec<std::collections::BTreeMap<usize, Full>> = vec![Default::default(); nw];
+            let mut drift: Option<String> = None;
             let mut pending: Option<(bool, String)> = None;
             let mut hits: Vec<&'static str> = Vec::new();
             for (w, op) in r.script.iter().take(256) {
@@ -252,6 +255,15 @@ impl World {
                         }
                         last_dir[w] = 1;
                         if p < len {
+                            if let Some((f, _)) = &got {
+                                if let Some(prev) = shown[w].get(&p) {
+                                    if let Some(d) = f.diff(prev) {
+                                        drift.get_or_insert(format!("ply {}: {}", p, d));
+                                    }
+                                } else {
+                                    shown[w].insert(p, f.clone());
+                                }
+                            }
                             match got {
                                 Some((f, m)) => {
                                     if m != self.rc.moves[p] {
@@ -278,6 +290,15 @@ impl World {
                         }
                         last_dir[w] = -1;
                         if p > 0 {
+                            if let Some((f, _)) = &got {
+                                if let Some(prev) = shown[w].get(&(p - 1)) {
+                                    if let Some(d) = f.diff(prev) {
+                                        drift.get_or_insert(format!("ply {}: {}", p - 1, d));
+                                    }
+                                } else {
+                                    shown[w].insert(p - 1, f.clone());
+                                }
+                            }
                             match got {
                                 Some((f, m)) => {
                                     if m != self.rc.moves[p - 1] {
@@ -314,6 +335,7 @@ impl World {
                         }
                     }
                     WOp::Renew => {
+                        shown[w].clear();
                         walkers[w] = chain.walk();
                         cursors[w] = 0;
                         last_dir[w] = 0;
@@ -334,6 +356,16 @@ impl World {
             drop(walkers);
             for h in hits {
                 self.stats.hit(h);
+            }
+            if let (Some(d), true, true) = (&drift, pending.is_none() || !self.on(C17), self.on(C04)) {
+                // C04's clause about walkers, in the only form that cannot be blamed on the cursor
+                // logic: the same walker, back at the same ply after other apply / undo steps, shows
+                // a different board than it showed there before
+                return Err(self.fail(
+                    C04,
+                    "undo-mismatch",
+                    format!("a walker that came back to a ply it had already shown returned a different board there (now vs before), {}", d),
+                ));
             }
             if let Some((positional, msg)) = pending {
                 if self.on(C17) {
